@@ -312,9 +312,11 @@ impl Man {
     }
 
     fn _render_version_section(&self, roff: &mut Roff) {
-        let version = roman(render::version(&self.cmd));
-        roff.control("SH", ["VERSION"]);
-        roff.text([version]);
+        // Nothing to render for a command without a version (`render` skips the section itself)
+        if let Some(version) = render::version(&self.cmd) {
+            roff.control("SH", ["VERSION"]);
+            roff.text([roman(version)]);
+        }
     }
 
     /// Render the AUTHORS section into the writer.
